@@ -69,8 +69,7 @@ def replay(cex, repo_dir):
 
 CANARIES = [
     {"name": "scan-loop-does-not-advance", "cfg": dict(graph="gc-balanced-2", n=3, start=11, has_indel=True, heap_size=1e9, nvt=0),
-     "patches": {"spiderweb": [("        else:\n            detected_count += 1\n            split_sequences[-1] = split_sequences[-1][: - observed_length + 1]",
-                                "        elif len(split_sequences[-1]) > 0:\n            detected_count += 1\n            split_sequences[-1] = split_sequences[-1][: - observed_length + 1]")]}},
+     "patches": {"spiderweb": [("        else:\n            detected_count += 1\n", "        elif len(split_sequences[-1]) > 0:\n            detected_count += 1\n")]}},
 ]
 
 if __name__ == "__main__":
